@@ -73,15 +73,23 @@ def main():
             z = rnd.randrange(n)
             m[z, :] = 0
             m[:, z] = 0
+        m_before = m.clone()
         try:
             p = minimize_bandwidth(m, samples=5)
-        except NotImplementedError:
+        except NotImplementedError as e:
+            if not m.any():
+                print(f"REPRODUCED: minimize_bandwidth raised NotImplementedError({e}) on the all-zero {n}x{n} matrix "
+                      "(no interactions: every order is optimal, the optimiser must return a permutation)")
+                return 1
             continue
         except AssertionError as e:
             print(f"REPRODUCED: minimize_bandwidth raised AssertionError({e}) on a symmetric {n}x{n} matrix "
                   f"{m.tolist()}")
             return 1
         checked += 1
+        if not torch.equal(m, m_before):
+            print(f"REPRODUCED: minimize_bandwidth modified its argument: {m_before.tolist()} became {m.tolist()}")
+            return 1
         if sorted(p.tolist()) != list(range(n)):
             print(f"REPRODUCED: minimize_bandwidth returned {p.tolist()}, not a permutation of range({n})")
             return 1
@@ -103,6 +111,17 @@ def main():
             print(f"REPRODUCED: minimize_bandwidth_impl(|M|, {init.tolist()}) = ({q.tolist()}, {bw}): not a "
                   f"permutation / bandwidth is not that of the permuted matrix / worse than the initial order; M = {m.tolist()}")
             return 1
+    for n in (1, 2, 4, 7, 12):
+        for dtp in (torch.float64, torch.float32):
+            z = torch.zeros(n, n, dtype=dtp)
+            try:
+                p = minimize_bandwidth(z)
+            except Exception as e:
+                print(f"REPRODUCED: minimize_bandwidth raised {type(e).__name__}({e}) on the all-zero {n}x{n} {dtp} matrix")
+                return 1
+            if sorted(p.tolist()) != list(range(n)):
+                print(f"REPRODUCED: minimize_bandwidth(all-zero {n}x{n}) returned {p.tolist()}, not a permutation")
+                return 1
     print(f"NOT-REPRODUCED: 300 helper rounds consistent; {checked} random symmetric matrices: optimiser returned "
           "a permutation that is no worse than the input order")
     return 0
